@@ -18,6 +18,7 @@ import (
 	"runtime"
 	"sort"
 	"strings"
+	"testing/iotest"
 	"time"
 
 	"github.com/ohler55/ojg/alt"
@@ -375,7 +376,51 @@ func execPlan(plan []any) (err error, pv any) {
 	return
 }
 
+// senTokenFuncs: the token functions of sen.Parser (AddMongoFuncs and a
+// user function) with every kind and number of arguments, in three contexts,
+// from a byte slice and through one-byte reads. The functions receive whatever
+// the text holds: a fault in one of them escapes through Parse.
+func senTokenFuncs(c *core.Ctx) {
+	fns := []string{"ISODate", "ObjectId", "NumberInt", "NumberLong", "NumberDecimal", "User", "Unknown"}
+	args := []string{"", `"5"`, `"2021-02-03T04:05:06Z"`, `"x"`, `""`, "5", "-1", "1.5", "123456789012345678901234567890", "null", "true", "[1 2]", "[]", "{a:1}", "abc", `"a" "b"`, "1 2 3", "ISODate(\"2021-02-03T04:05:06Z\")"}
+	ctxs := []string{"%s", "[1 %s 2]", "{a:%s b:1}"}
+	for _, fn := range fns {
+		for _, a := range args {
+			for _, ctx := range ctxs {
+				text := fmt.Sprintf(ctx, fn+"("+a+")")
+				for _, reader := range []bool{false, true} {
+					var pv any
+					site := ""
+					func() {
+						defer func() {
+							if pv = recover(); pv != nil {
+								site = snap.PanicSite()
+							}
+						}()
+						p := &sen.Parser{}
+						p.AddMongoFuncs()
+						p.AddTokenFunc("User", func(args ...any) any { return len(args) })
+						if reader {
+							_, _ = p.ParseReader(iotest.OneByteReader(strings.NewReader(text)))
+						} else {
+							_, _ = p.Parse([]byte(text))
+						}
+					}()
+					c.Eval()
+					c.Add("sen_token_function_calls", 1)
+					if pv != nil {
+						kind, _ := panicKind(pv)
+						cs := caseT{Leg: "C", Entry: "sen.Parser+AddMongoFuncs", Text: text, Quoted: fmt.Sprintf("%q", text)}
+						c.Fail(core.Sig("fe=sen.Parser.tokenfunc", "fn="+fn, "panic="+kind, "site="+site), cs, len(text), "error result or success", fmt.Sprintf("panic: %v", pv))
+					}
+				}
+			}
+		}
+	}
+}
+
 func legC(c *core.Ctx) {
+	senTokenFuncs(c)
 	var names []string
 	for n := range asm.FnDocs() {
 		names = append(names, n)
